@@ -113,7 +113,11 @@ def main():
         except Exception:
             pass
         shutil.copy(os.path.join(mdir, 'demo_test.go'), os.path.join(wt, pdir, 'zz_seed_demo_test.go'))
-        run = ['go', 'test', '-vet=off', '-count=1', '-run', '^(' + '|'.join(tests) + ')$', './' + pdir + '/']
+        try:
+            dflags = (json.load(open(os.path.join(mdir, 'meta.json'))).get('demo_flags') or '').split()
+        except Exception:
+            dflags = []
+        run = ['go', 'test', '-vet=off', '-count=1'] + dflags + ['-run', '^(' + '|'.join(tests) + ')$', './' + pdir + '/']
         rc1, out1 = sh(run, wt)
         ran.append(f'demo with the change -> {rc1}')
         sh(['git', 'apply', '-R', patch], wt)
